@@ -186,6 +186,7 @@ type Cluster struct {
 	PeersErr *cqlspec.Response
 	alias     map[string]string // public "ip:port" -> key in nodes
 	aliasOnly bool
+	PeersV2   bool // a Cassandra 4 cluster: system.peers_v2 exists (peer_port, native_address, native_port), system.local has the *_port columns
 }
 
 func NewCluster(specs []HostSpec) *Cluster {
@@ -468,7 +469,52 @@ func (n *Node) LocalRow() *cqlspec.Response {
 		col("local", "schema_version", cqlspec.UUID), col("local", "cql_version", cqlspec.Varchar)}
 	row := []cqlspec.Value{text("local"), text(s.DC), text(s.Rack), uuidV(s.HostID), text(s.Version), text("vcluster"), text(n.Partitioner),
 		inetV(s.PeerAddr()), inetV(s.IP), inetV(s.IP), tokensV(s.Tokens), uuidV("00000000000010008000000000000001"), text("3.4.4")}
+	if n.Cluster.PeersV2 {
+		port := s.Port
+		if port == 0 {
+			port = 9042
+		}
+		cols = append(cols, col("local", "rpc_port", cqlspec.Int), col("local", "broadcast_port", cqlspec.Int), col("local", "listen_port", cqlspec.Int))
+		row = append(row, cqlspec.I64Value(int64(port)), cqlspec.I64Value(7000), cqlspec.I64Value(7000))
+	}
 	return RowsResponse(cols, [][]cqlspec.Value{row})
+}
+
+// PeersV2Rows is the system.peers_v2 answer of this node (Cassandra 4): ports next to the addresses.
+func (n *Node) PeersV2Rows() *cqlspec.Response {
+	cols := []cqlspec.Column{col("peers_v2", "peer", cqlspec.Inet), col("peers_v2", "peer_port", cqlspec.Int), col("peers_v2", "data_center", cqlspec.Varchar),
+		col("peers_v2", "rack", cqlspec.Varchar), col("peers_v2", "host_id", cqlspec.UUID), col("peers_v2", "release_version", cqlspec.Varchar),
+		col("peers_v2", "native_address", cqlspec.Inet), col("peers_v2", "native_port", cqlspec.Int), col("peers_v2", "preferred_ip", cqlspec.Inet),
+		col("peers_v2", "preferred_port", cqlspec.Int), {Keyspace: "system", Table: "peers_v2", Name: "tokens", Type: setText},
+		col("peers_v2", "schema_version", cqlspec.UUID)}
+	var rows [][]cqlspec.Value
+	for _, t := range n.Cluster.Truth() {
+		if t.HostID == n.Spec.HostID && t.HostID != "" {
+			continue
+		}
+		dc, rack := text(t.DC), text(t.Rack)
+		if t.DC == "" {
+			dc = cqlspec.NullValue()
+		}
+		if t.Rack == "" {
+			rack = cqlspec.NullValue()
+		}
+		toks := tokensV(t.Tokens)
+		if len(t.Tokens) == 0 {
+			toks = cqlspec.NullValue()
+		}
+		port := t.Port
+		if port == 0 {
+			port = 9042
+		}
+		peer, native := inetV(t.PeerAddr()), inetV(t.IP)
+		if t.NoAddr {
+			peer, native = cqlspec.NullValue(), inetV("0.0.0.0")
+		}
+		rows = append(rows, []cqlspec.Value{peer, cqlspec.I64Value(7000), dc, rack, uuidV(t.HostID), text(t.Version), native, cqlspec.I64Value(int64(port)),
+			cqlspec.NullValue(), cqlspec.NullValue(), toks, uuidV("00000000000010008000000000000001")})
+	}
+	return RowsResponse(cols, rows)
 }
 
 // PeersRows is the system.peers answer of this node: every host of the truth except itself.
@@ -532,6 +578,14 @@ func (n *Node) dispatch(rc *ReqCtx) {
 		case strings.HasPrefix(q, "select * from system.local"):
 			rc.Reply(n.LocalRow())
 		case strings.HasPrefix(q, "select * from system.peers_v2"):
+			if n.Cluster.PeersV2 {
+				if e := n.Cluster.peersErr(); e != nil {
+					rc.Reply(e)
+					return
+				}
+				rc.Reply(n.PeersV2Rows())
+				return
+			}
 			rc.Reply(&cqlspec.Response{Kind: "ERROR", Code: cqlspec.ErrInvalid, Message: "unconfigured table peers_v2"})
 		case strings.HasPrefix(q, "select * from system.peers"):
 			if e := n.Cluster.peersErr(); e != nil {
